@@ -1,12 +1,35 @@
-"""Regenerate everything under coq/Gen from the current /repo working tree."""
+"""Regenerate everything under coq/Gen from the current /repo working tree.
+Every check calls this first, so that theorems are always re-checked against what the code says now."""
+import time
+import traceback
+
 import vf
 
+_done = {}
 
-def regen_all():
+
+def regen_all(force=False):
+    """Returns {generator: None | error text}. Fail-closed: an extractor error is reported, never guessed around."""
+    if _done and not force:
+        return _done
     import gen_counter
-    gen_counter.gen_counter()
-    gen_counter.gen_sites()
+    import gen_tables
+    gens = [("counter", gen_counter.gen_counter), ("seq_sites", gen_counter.gen_sites), ("tables", gen_tables.gen_tables)]
+    try:
+        import gen_misc
+        gens += gen_misc.GENERATORS
+    except ImportError:
+        pass
+    for name, fn in gens:
+        t = time.time()
+        try:
+            fn()
+            _done[name] = None
+        except Exception:
+            _done[name] = traceback.format_exc()[-600:]
+    return _done
 
 
 if __name__ == "__main__":
-    regen_all()
+    for k, v in regen_all().items():
+        print(k, "ok" if v is None else v)
